@@ -1475,7 +1475,7 @@ def link_vs_app_despawn(seed):
         lines.append('OP %d setup' % p)
     lines.append('ROUND %d' % r.randint(6, 9))
     h = 0
-    for _ in range(r.randint(9, 12)):
+    for _ in range(r.randint(12, 15)):
         sender = r.choice(range(n))
         receiver = r.choice([q for q in range(n) if q != sender]) if sender == 0 else 0
         c, p = h + 1, h + 2
@@ -1492,7 +1492,7 @@ def link_vs_app_despawn(seed):
         victim = r.choice([c, p]) if kind == 'parent' else c
         # ONE application system per attempt (taken in turn): with all three the earliest one would win and
         # the entity would be gone before the message is even handled
-        lines.append('OP %d appcmd %d despawn %d' % (receiver, (h // 2) % 3, victim))
+        lines.append('OP %d appcmd %d despawn %d' % (receiver, (h // 2) % 6, victim))
         lines.append('FRAME %d 2' % receiver)
         lines.append('DRAIN 40')
     return '\n'.join(lines) + '\n', {}
